@@ -53,6 +53,8 @@ def gen(seed_i, tier):
     levels = ("vbs", "vbs", "ipm")
     scn = common.gen_pipeline_scenario(seed_i, level_choices=levels, nmax=nmax)
     scn["reader"] = "func" if (scn["level"] == "vbs" and st["knobs2"].random() < 0.15) else "class"
+    if scn["reader"] == "class" and st["knobs2"].random() < 0.2:
+        scn["read_storage"] = "pipe"     # the surviving file is read through a non-seekable stream
     return scn
 
 
@@ -66,7 +68,7 @@ def judge_image(scn, image, asked, control_items, via):
         fails.append({"oracle": "C09.writer.disk_holds_prefix_of_asked",
                       "detail": f"{via}: the image holds {len(complete)} complete records that are not a prefix of the records written",
                       "sig": f"C09.writer.disk_holds_prefix_of_asked|{tag}|{via}"})
-    obs = pipeline.read_phase(scn, image)
+    obs = pipeline.read_phase(scn, image, storage=scn.get("read_storage", "sim"))
     if scn["level"] == "vbs":
         expected = complete
     else:
@@ -130,6 +132,8 @@ def run_file(seed_i, tier, part, keep_fail_scn=True):
     part["counters"][f"knob:MAX={common.maxlen_of(scn)}"] += 1
     part["counters"][f"knob:level={scn['level']},blocked={int(scn['blocked'])},api={scn.get('api')},reader={scn.get('reader')}"] += 1
     part["counters"]["storage:sim"] += 1
+    if scn.get("read_storage") == "pipe":
+        part["counters"]["storage:read_back_through_non_seekable_stream"] += 1
     if ctrl.error or ctrl.fin_errors:
         # a writer that raises on a fault-free workload is C03 / C06's business, not a crash-point verdict
         part["counters"]["probe:base_file_not_writable"] += 1
